@@ -2007,6 +2007,14 @@ class _GroupElem(ABC):
 
         if elements_e is None:
             elements_e = self._Get_nearby_elements(coordinates_n)
+            mapping = self._Get_Mapping(coordinates_n, elements_e, needCoordinates)
+            if mapping[0].size < coordinates_n.shape[0]:
+                # The element containing a point does not always touch the node closest to
+                # that point (stretched or 3D elements): search the remaining elements too.
+                mapping = self._Get_Mapping(
+                    coordinates_n, self.elements, needCoordinates
+                )
+            return mapping
 
         return self._Get_Mapping(coordinates_n, elements_e, needCoordinates)
 
